@@ -403,30 +403,55 @@ class Locals:
 
 
 def must_pass(stmts, hit, transparent=lambda test: False):
-    """True when every path through `stmts` that completes normally (no raise)
-    executes a statement for which hit(stmt) is true.  `transparent(test)` names
-    the if-conditions that are part of the rule's precondition (the rule is only
-    stated for executions where they hold): such an `if` counts as always taken."""
-    for st in stmts:
-        if hit(st):
-            return True
-        if isinstance(st, ast.Raise):
-            return True  # this path does not complete normally
-        if isinstance(st, (ast.Return, ast.Break, ast.Continue)):
-            return False
-        if isinstance(st, ast.If):
-            if transparent(st.test):
-                if must_pass(st.body, hit, transparent):
-                    return True
-            elif must_pass(st.body, hit, transparent) and must_pass(st.orelse, hit, transparent):
-                return True
-        elif isinstance(st, (ast.With, ast.AsyncWith)):
-            if must_pass(st.body, hit, transparent):
-                return True
-        elif isinstance(st, ast.Try):
-            if st.finalbody and must_pass(st.finalbody, hit, transparent):
-                return True
-            if must_pass(st.body, hit, transparent) and all(must_pass(h.body, hit, transparent) for h in st.handlers):
-                return True
-        # loops may run zero times: their bodies never establish the obligation
-    return False
+    """True when every path through `stmts` that completes normally (falls off the end or returns, no raise)
+    executes a statement for which hit(stmt) is true.  `transparent(test)` names the if-conditions that are part of
+    the rule's precondition (the rule is only stated for executions where they hold): such an `if` counts as taken."""
+
+    def paths(block):
+        """(some path reaches the end of block without a hit, some path leaves the function without a hit)"""
+        reach, exits = True, False
+        for st in block:
+            if not reach:
+                break
+            if hit(st):
+                reach = False
+            elif isinstance(st, ast.Raise):
+                reach = False
+            elif isinstance(st, ast.Return):
+                exits, reach = True, False
+            elif isinstance(st, (ast.Break, ast.Continue)):
+                reach = False  # continues after / at the head of the enclosing loop, whose exit state is "unhit" anyway
+            elif isinstance(st, ast.If):
+                if transparent(st.test):
+                    reach, e = paths(st.body)
+                    exits = exits or e
+                else:
+                    f1, e1 = paths(st.body)
+                    f2, e2 = paths(st.orelse)
+                    reach, exits = f1 or f2, exits or e1 or e2
+            elif isinstance(st, (ast.With, ast.AsyncWith)):
+                reach, e = paths(st.body)
+                exits = exits or e
+            elif isinstance(st, ast.Try):
+                f, e = paths(st.body)
+                hs = [paths(h.body) for h in st.handlers]
+                f = f or any(x[0] for x in hs)
+                e = e or any(x[1] for x in hs)
+                if st.orelse:
+                    fo, eo = paths(st.orelse)
+                    f, e = (f and fo) or any(x[0] for x in hs), e or eo
+                if st.finalbody:
+                    ff, ef = paths(st.finalbody)
+                    if not ff and not ef:
+                        f, e = False, False  # the finally block hits on every way out
+                    else:
+                        e = e or ef
+                reach, exits = f, exits or e
+            elif isinstance(st, (ast.For, ast.While, ast.AsyncFor)):
+                _, e = paths(st.body)
+                exits = exits or e
+                # the body may run zero times: reach stays True
+        return reach, exits
+
+    reach, exits = paths(list(stmts))
+    return not reach and not exits
